@@ -14,6 +14,7 @@ __doc__ = """
 
 # Site-Packages
 from numpy import array
+from numpy.ma import filled
 
 # This Package modules
 from PseudoNetCDF.camxfiles.timetuple import timeadd, timerange
@@ -36,10 +37,10 @@ def ncf2height_pressure(ncffile, outpath, hght='HGHT', pres='PRES',
             p2d = p2d.astype('>f')
             buf = array((h2d.size + 2) * 4, ndmin=1).astype('>i').tobytes()
             outfile.write(buf + t.tobytes() + d.tobytes())
-            h2d.tofile(outfile)
+            filled(h2d).tofile(outfile)
             outfile.write(buf)
             outfile.write(buf + t.tobytes() + d.tobytes())
-            p2d.tofile(outfile)
+            filled(p2d).tofile(outfile)
             outfile.write(buf)
     outfile.flush()
     return outfile
